@@ -141,10 +141,15 @@ pub fn gen_cancel(property: &str, profile: &str, seed: u64) -> Plan {
     let mix = Mix { write: 50, delete: 22, idle: 5, lifecycle: 8, lifecycle_bg: 0, force: 0, free: 2, offload: 0, fsync: 3, restart: 0, clock: 0 };
     let n0 = sw.rng.range(5, 22) as usize;
     let mut ops = Vec::new();
+    let write_only = Mix { write: 1, delete: 0, idle: 0, lifecycle: 0, lifecycle_bg: 0, force: 0, free: 0, offload: 0, fsync: 0, restart: 0, clock: 0 };
+    let mut after_cancelled_write = false;
     for i in 0..n0 {
-        let mut op = gen_op(&mut sw, &mix, plan.store.key_len);
+        // a write right behind a cancelled write: both append to the same blob
+        let mut op = if after_cancelled_write && sw.rng.chance(1, 2) { gen_op(&mut sw, &write_only, plan.store.key_len) } else { gen_op(&mut sw, &mix, plan.store.key_len) };
+        after_cancelled_write = false;
         if !profile.contains("sweep") && i >= 1 && sw.rng.chance(1, 4) && !matches!(op.kind, OpKind::Idle { .. }) {
             let k = sw.rng.below(9) as u32;
+            after_cancelled_write = matches!(op.kind, OpKind::Write { .. });
             op.kind = OpKind::Cancelled { k, op: Box::new(op.kind.clone()) };
         }
         ops.push(op);
